@@ -128,29 +128,46 @@ func c07Quiescent(c *Ctx) {
 	ics := gen.ICSets[1]
 	lock := r.Bool()
 	var recovered atomic.Int64
-	s := NewSys(ics, r.Chance(1, 3), lock, mux.WithRecovery(func(w http.ResponseWriter, v any) {
-		recovered.Add(1)
-		w.WriteHeader(500)
-	}))
-	pl := gen.SimpleFor(ics)
-	pool := pl.Table(r, r.Range(8, 20))
-	for _, p := range pool {
-		ok, _, h := s.Handle(p, []string{"GET", "POST"}, Via{})
-		if ok {
-			h.Run = func(w http.ResponseWriter, rq *http.Request, b *mon.Hnd) {
-				if strings.HasSuffix(rq.URL.Path, "13") || strings.Contains(rq.URL.Path, "13/") {
-					panic("boom " + rq.URL.Path)
+	// The router is built twice from one seed: the twin answers the sequential pre-pass, the router under test serves
+	// its very first request under concurrent load (state that is built lazily on the serving path would be built
+	// there). The last mutations are removals (no registration afterwards).
+	trace := r.Chance(1, 3)
+	buildSeed := r.U64()
+	build := func() *Sys {
+		br := ref.NewR(buildSeed)
+		s := NewSys(ics, trace, lock, mux.WithRecovery(func(w http.ResponseWriter, v any) {
+			recovered.Add(1)
+			w.WriteHeader(500)
+		}))
+		pl := gen.SimpleFor(ics)
+		pool := pl.Table(br, br.Range(8, 20))
+		for _, p := range pool {
+			ok, _, h := s.Handle(p, []string{"GET", "POST"}, Via{})
+			if ok {
+				h.Run = func(w http.ResponseWriter, rq *http.Request, b *mon.Hnd) {
+					if strings.HasSuffix(rq.URL.Path, "13") || strings.Contains(rq.URL.Path, "13/") {
+						panic("boom " + rq.URL.Path)
+					}
+					w.Write([]byte("ok"))
 				}
-				w.Write([]byte("ok"))
 			}
 		}
+		if br.Bool() {
+			for k := br.Range(1, 3); k > 0; k-- {
+				if lp := s.LivePatterns(); len(lp) > 3 {
+					s.Remove(ref.Pick(br, lp), Via{})
+				}
+			}
+		}
+		return s
 	}
+	s, twin := build(), build()
 	live := s.LivePatterns()
-	// sequential pre-pass: which pattern answers the witness shape of each live pattern
+	// sequential pre-pass on the twin: which pattern answers the witness shape of each live pattern
 	answer := map[string]string{}
 	for _, p := range live {
-		w, _ := Witness(s.Live[p].Pat, 1)
-		o := mon.Do(s.R, mon.Req{Method: "GET", Path: w})
+		w, _ := Witness(twin.Live[p].Pat, 1)
+		o := mon.Do(twin.R, mon.Req{Method: "GET", Path: w})
 		if !o.NodeNil {
 			answer[p] = o.NodePattern
 		}
